@@ -91,6 +91,30 @@ WHAT = {
  "C19-4": "trimPath applied only for a root spelled `.`: `./a` roots list `./a/...`",
  "C19-5": "dir-only mode returns ErrSkipFiles for non-directories: symlinked directories are not descended",
  "C19-6": "roots walked by goroutines capturing the loop variable: the last root is walked N times",
+ "C06-7": "fast path for delimiter-free reads skips the slab renewal: the next Read gets a zero-length buffer, feed ends as at EOF (records >= 192 KiB)",
+ "C06-8": "streaming filter drops zero-length records (`-f '' +s`, `!foo`), header count off when a header record is empty",
+ "C06-9": "final unterminated record of a command's output pushed only if the command exits 0",
+ "C07-7": "accept-non-empty / accept-or-print-query test only for a current line (selection + no match)",
+ "C07-8": "--ansi fast path returns lines without ESC unchanged (SO/SI, overstrike kept)",
+ "C07-9": "--print0 printer uses Printf(str + sep): `%` in records or query mangled",
+ "C08-7": "exclusions checked against the snapshot revision: exclude during a silent reload hides a line of the new input",
+ "C08-8": "mergePending carries the pending denylist only when the replacing request has exclusions too",
+ "C08-9": "matcher re-clears the chunk cache only on a major revision (change-nth with a search in flight)",
+ "C09-7": "--no-input: cursor constrained instead of moved to the end: chained edit actions corrupt the restored query",
+ "C09-8": "toggle-in / toggle-out direction test `== layoutReverse`: reversed under reverse-list",
+ "C09-9": "revision recorded only when something is selected: after a reload with empty selection the next query change drops the selection (and --track stops)",
+ "C14-7": "follow branch of the preview display no longer guarded by hasPreviewWindow: nil window after hiding a streaming preview",
+ "C14-8": "executeCommand unlocks the terminal mutex after taking the UI mutex: lock-order inversion with the renderer",
+ "C14-9": "--tmux proxy: explicit temp-file removal before become dropped (deferred removals never run across exec)",
+ "C15-7": "leaving jump mode through an outside action repaints the list only if jump-cancel is bound",
+ "C15-8": "toggle-all repaints only when the number of selected items changed (half selected)",
+ "C15-9": "reverse-list row mapping uses all header lines instead of those inside the list window",
+ "C16-7": "a POST cut short of its Content-Length is executed (only scanner errors reject)",
+ "C16-8": "key stored trimmed, start-up check on the untrimmed value: blank FZF_API_KEY opens a non-local listener",
+ "C16-9": "read deadline renewed on every header line: a dripping client blocks the server for good",
+ "C20-7": "hasPreviewFlags keeps the flags of the last placeholder only: `{+} ... {}` expands {+} to the focused line",
+ "C20-8": "preview collector checks err before appending: final unterminated output line dropped",
+ "C20-9": "previewCmd forgotten at EOF of the output, before the command exited: survives the session",
  "C20-1": "reload bumps the preview version only when a selection existed",
  "C20-2": "KillCommand kills only the shell (superseded compound preview survives, holds the pipe)",
  "C04-4": "mergedGet copies the rest of the last live list in bulk but advances its cursor by one (a probe that jumps ahead, then a read further on)",
